@@ -28,6 +28,7 @@
 #include "rtcommon.h"
 #include "fiber_channel.h"
 
+static long payload_bias;
 static char kind;      /* b / u / s (lower-cased) */
 static int spin_mode;  /* kind letter was upper case: ready_signal = NULL */
 static int total_msgs; /* number of s<v> ops in the script */
@@ -64,10 +65,10 @@ static int do_try(void) {
     if (ok) got = 1;
   } else if (kind == 'u') {
     mpsc_fifo_node_t* n = fiber_unbounded_channel_try_receive(&uc);
-    if (n) { v = (long)n->data; got = 1; }
+    if (n) { v = (long)n->data + payload_bias; got = 1; }
   } else {
     spsc_node_t* n = fiber_unbounded_sp_channel_try_receive(&sc);
-    if (n) { v = (long)n->data; got = 1; }
+    if (n) { v = (long)n->data + payload_bias; got = 1; }
   }
   if (got) got_msgs++;
   vr_note("ret pop %ld", v);
@@ -83,10 +84,10 @@ static void do_op(int t, const char* op) {
       if (kind == 'b') {
         r = fiber_bounded_channel_send(bc, (void*)v);
       } else if (kind == 'u') {
-        umsg[v]->data = (void*)v;
+        umsg[v]->data = (void*)(v - payload_bias);
         r = fiber_unbounded_channel_send(&uc, umsg[v]);
       } else {
-        smsg[v]->data = (void*)v;
+        smsg[v]->data = (void*)(v - payload_bias);
         r = fiber_unbounded_sp_channel_send(&sc, smsg[v]);
       }
       vr_note("woke %d", r);
@@ -113,10 +114,10 @@ static void do_op(int t, const char* op) {
         v = (long)fiber_bounded_channel_receive(bc);
       } else if (kind == 'u') {
         mpsc_fifo_node_t* n = fiber_unbounded_channel_receive(&uc);
-        v = (long)n->data;
+        v = (long)n->data + payload_bias;
       } else {
         spsc_node_t* n = fiber_unbounded_sp_channel_receive(&sc);
-        v = (long)n->data;
+        v = (long)n->data + payload_bias;
       }
       got_msgs++;
       vr_note("ret pop %ld", v);
@@ -139,6 +140,9 @@ VH_NOINSTR int main(int argc, char** argv) {
   }
   int p2 = atoi(argv[3]);
   vh_parse(argv[4]);
+  /* VR_BIAS=.data:<k> (unbounded channels only): message v carries payload word v - k, so
+   * message k is a NULL payload in the real code; the runtime prints the data cells plus k */
+  { const char* b = getenv("VR_BIAS"); const char* c = b ? strrchr(b, ':') : 0; payload_bias = c ? atol(c + 1) : 0; }
   for (int t = 0; t < vh_script.nfibers; t++)
     for (int i = 0; i < vh_script.nops[t]; i++)
       if (vh_script.ops[t][i][0] == 's') total_msgs++;
